@@ -25,9 +25,14 @@ Open Scope Z_scope.
                   drops is bounded by neither clause).
    Hypothesis of the statement itself: every request is validated against the queue set produced
    by the previously admitted ones (serialised admission, lister up to date) — see
-   C10_concurrent_*_refuted below. --- *)
+   C10_concurrent_*_refuted below.
+   [safe_history]: whenever the history removes the finalizer of a terminating queue (EnvGone), that
+   queue has no children at that moment.  Without it the statement is FALSE on the current code — the
+   webhook admits a CREATE / re-parenting under a terminating queue (C10_terminating_parent_dangling_refuted,
+   known finding C10-child-under-terminating-parent); a history without finalizer removals is always safe
+   (C10_no_finalizer_removal_is_safe). --- *)
 Theorem C10_admitted_history_preserves_tree : forall c rs Q0,
-  1 <= max_depth c -> TreeInv c Q0 -> TreeInv c (run_history c Q0 rs).
+  1 <= max_depth c -> safe_history c Q0 rs -> TreeInv c Q0 -> TreeInv c (run_history c Q0 rs).
 Proof. exact tree_history. Qed.
 Print Assumptions C10_admitted_history_preserves_tree.
 
@@ -38,9 +43,20 @@ Theorem C10_status_update_keeps_tree : forall c Q n a st,
 Proof. exact tree_status_update. Qed.
 Print Assumptions C10_status_update_keeps_tree.
 
+Theorem C10_no_finalizer_removal_is_safe : forall c rs, Forall no_gone rs -> forall Q, safe_history c Q rs.
+Proof. exact no_gone_safe. Qed.
+Print Assumptions C10_no_finalizer_removal_is_safe.
+
+Theorem C10_terminating_parent_dangling_refuted :
+  exists c Q rs, TreeInv c Q /\ 1 <= max_depth c /\
+    verdicts c Q rs = [VAllowed; VAllowed; VAllowed] /\
+    ~ safe_history c Q rs /\ ~ ShapeInv c (run_history c Q rs) /\ capacity_ready (run_history c Q rs) = false.
+Proof. exact terminating_parent_dangling_refuted. Qed.
+Print Assumptions C10_terminating_parent_dangling_refuted.
+
 (* the shape part alone *)
-Theorem C10_shape_history : forall c Q0 rs,
-  1 <= max_depth c -> ShapeInv c Q0 -> ShapeInv c (run_history c Q0 rs).
+Theorem C10_shape_history : forall c rs Q0,
+  1 <= max_depth c -> safe_history c Q0 rs -> ShapeInv c Q0 -> ShapeInv c (run_history c Q0 rs).
 Proof. exact shape_history. Qed.
 Print Assumptions C10_shape_history.
 
@@ -75,7 +91,7 @@ Print Assumptions C10_queue_order.
 (* --- capability against the nearest ancestor that sets the dimension: preserved by every
    admitted request, re-parenting of whole subtrees included (second fix) --- *)
 Theorem C10_capability_step : forall c Q r,
-  1 <= max_depth c -> ShapeInv c Q -> CapInv Q -> CapInv (apply_if_admitted c Q r).
+  1 <= max_depth c -> req_safe Q r -> ShapeInv c Q -> CapInv Q -> CapInv (apply_if_admitted c Q r).
 Proof. exact cap_step. Qed.
 Print Assumptions C10_capability_step.
 
@@ -111,6 +127,35 @@ Theorem C10_delete_guard_law_complete : forall c Q n,
   verdict_of c Q (Delete n) = VAllowed -> delete_guardb c Q (Delete n) = true.
 Proof. exact delete_guardb_complete. Qed.
 Print Assumptions C10_delete_guard_law_complete.
+
+(* DELETE of a queue held by a finalizer (the object lingers as terminating) is validated like DELETE;
+   laws 105 and 107 judge it too; law 107's guard means "no allocated pods", and holds with the flag on *)
+Theorem C10_delete_fin_guard : forall c Q n,
+  verdict_of c Q (DeleteFin n) = VAllowed ->
+  n <> root /\ n <> default_q /\
+  exists s, Q !! n = Some s /\ (alloc_check c = true -> qalloc s = 0) /\
+            forall m sm, Q !! m = Some sm -> qparent sm <> Some n.
+Proof. exact delete_fin_guard. Qed.
+Print Assumptions C10_delete_fin_guard.
+
+Theorem C10_delete_fin_guard_law_sound : forall c Q n,
+  delete_guardb c Q (DeleteFin n) = true ->
+  n <> root /\ n <> default_q /\
+  exists s, Q !! n = Some s /\ (alloc_check c = true -> qalloc s = 0) /\
+            forall m sm, Q !! m = Some sm -> qparent sm <> Some n.
+Proof. exact delete_fin_guardb_sound. Qed.
+Print Assumptions C10_delete_fin_guard_law_sound.
+
+Theorem C10_delete_alloc_law_sound : forall Q n s,
+  (delete_allocb Q (Delete n) = true \/ delete_allocb Q (DeleteFin n) = true) -> Q !! n = Some s -> qalloc s = 0.
+Proof. exact delete_allocb_sound. Qed.
+Print Assumptions C10_delete_alloc_law_sound.
+
+Theorem C10_delete_alloc_law_holds_with_flag : forall c Q n,
+  alloc_check c = true -> verdict_of c Q (Delete n) = VAllowed ->
+  delete_allocb Q (Delete n) = true /\ delete_allocb Q (DeleteFin n) = true.
+Proof. exact delete_allocb_flag_on. Qed.
+Print Assumptions C10_delete_alloc_law_holds_with_flag.
 
 Theorem C10_root_and_default_stay : forall c rs n Q0,
   n = root \/ n = default_q -> is_Some (Q0 !! n) -> is_Some (run_history c Q0 rs !! n).
